@@ -89,6 +89,10 @@ def run(chk):
     from .rules_C20 import wrapper_returns
 
     wrapper_returns(prog, r3)
+    # the configured key_prefix goes in front of keys and of nothing else (an argument of stats / cache_memlimit is not a key)
+    from . import rules_C04, report
+
+    report.include_rules(chk, r3, rules_C04, ("C04.R4",), "key_prefix is applied to every key and to nothing that is not a key")
 
     # ------------------------------------------------------------------ R4 integer sanitizers
     r4 = chk.rule("C02.R4", "integer sanitizers: _check_integer returns only for int and renders with str(); _check_cas returns only digit strings; everything else raises MemcacheIllegalInputError")
